@@ -430,8 +430,15 @@ func (p *postHandshake) processPostHandshakeMessages(ctx context.Context, conn C
 
 			return err
 		}
+		sequence := p.state.HandshakeRecvSequence
 		if err := p.handlePostHandshakeMessage(ctx, conn, message, item.Epoch); err != nil {
 			return err
+		}
+		if p.state.HandshakeRecvSequence == sequence {
+			// The handler answered the message with a fatal alert and did not
+			// consume it. Looking at the same message again would send that
+			// alert forever; the connection is over.
+			return dtlserrors.ErrUnexpectedPostHandshakeMessage
 		}
 	}
 
